@@ -128,7 +128,7 @@ package board
 //@ define samePlacement(p, q) = pP(p) == pP(q) && pN(p) == pN(q) && pB(p) == pB(q) && pR(p) == pR(q) && pQ(p) == pQ(q) && pK(p) == pK(q) && cW(p) == cW(q) && cB(p) == cB(q)
 //@
 //@ func (*Board).MakeMove
-//@   props C02 C04
+//@   props C02 C04 C10
 //@   timeout 600
 //@   opaque zplace epPre epAns
 //@   ghost p0 = pos(b)
